@@ -291,7 +291,14 @@ func (c13) Run(x *Exec, scn any) {
 			o.violate("blocked", "C13/write-blocked", "writes after a restart did not finish: %+v", res)
 		}
 	}
-	x.Sim.Spawn("stopper", func() { a.Stop() })
+	x.Sim.Spawn("stopper", func() {
+		a.Stop()
+		if s.Knobs.MapSeed%2 == 0 {
+			if pv, st := call(a.Stop); pv != nil { // appenders tolerate a second Stop
+				o.violate("second-stop-panic", "C13/second-stop-panics/"+panicSite(st), "a second Stop of the rolling appender panicked: %v", pv)
+			}
+		}
+	})
 	x.Sim.Run(nil)
 	if d := x.Sim.Died(); len(d) > 0 {
 		for _, t := range d {
